@@ -384,3 +384,61 @@ pub fn mutate_doc(p: &mut Prng, cfg: GenCfg, doc: &Map<String, Value>, universe:
     }
     root.as_object().unwrap().clone()
 }
+
+/// Array-focused edit of a small document: {"title": n, "items♭": [...], "more♭": [...]} over a tiny
+/// identifier universe, so that concurrent replicas often apply the same kind of edit.
+pub fn mutate_arrays(p: &mut Prng, doc: &Map<String, Value>, universe: usize) -> Map<String, Value> {
+    let mut d = doc.clone();
+    d.remove("_id");
+    let keys = ["items\u{266D}", "more\u{266D}"];
+    for k in keys.iter() {
+        if !d.get(*k).map(|v| v.is_array()).unwrap_or(false) {
+            d.insert(k.to_string(), Value::from(Vec::<Value>::new()));
+        }
+    }
+    let mut used = BTreeSet::new();
+    used_ids(&Value::from(d.clone()), &mut used);
+    let k = keys[if p.chance(3, 4) { 0 } else { 1 }];
+    let other = if k == keys[0] { keys[1] } else { keys[0] };
+    let kind = p.below(8);
+    let mut moved: Option<Value> = None;
+    {
+        let a = d.get_mut(k).unwrap().as_array_mut().unwrap();
+        match kind {
+            0 if !a.is_empty() => {
+                a.remove(0);
+            }
+            1 if !a.is_empty() => {
+                a.pop();
+            }
+            2 | 3 => {
+                if let Some(id) = fresh_id(p, &mut used, universe.min(5)) {
+                    let e = json!({"_id": id, "v": p.below(3)});
+                    if kind == 2 { a.push(e) } else { a.insert(0, e) }
+                }
+            }
+            4 if a.len() > 1 => {
+                let e = a.remove(0);
+                a.push(e);
+            }
+            5 if !a.is_empty() => {
+                let i = p.below(a.len());
+                if let Some(o) = a[i].as_object_mut() {
+                    o.insert("v".into(), json!(p.below(3)));
+                }
+            }
+            6 if !a.is_empty() => {
+                let i = p.below(a.len());
+                moved = Some(a.remove(i));
+            }
+            _ => {
+                d.insert("title".into(), json!(p.below(3)));
+                return d;
+            }
+        }
+    }
+    if let Some(e) = moved {
+        d.get_mut(other).unwrap().as_array_mut().unwrap().push(e);
+    }
+    d
+}
